@@ -1,11 +1,32 @@
 """C19 -- Gray-code tables and word-level bit kernels (finite domains, proof level)."""
-from vplib.core import Group
+from vplib.core import Group, with_canaries
 
 LEVEL = "proof"
 META = {
     "explanation": "word kernels: loop-free (or width-bounded, fully unwound) code over the full input domain; code book: finite domain k=1..16 enumerated completely (concrete k, complete unwinding, symbolic entry index); mzd_make_table: bounded in row width, complete in k<=8",
 }
 P = ["C19"]
+
+
+def table_groups(tier, props=("C19", "C01", "C02", "C10")):
+    """mzd_make_table: complete in k = 1..8 (every caller clips k to <= 8), bounded in the row width"""
+    from checks.shapes import mat, even
+    gs = []
+    q = tier == "quick"
+    for k in range(1, 9):
+        shapes = [(70, 0, "owned"), (130, 70, "view1")] if q else [(1, 0, "owned"), (64, 0, "owned"), (70, 5, "view0"), (130, 70, "view1"), (200, 64, "owned"), (700, 130, "view1")]
+        if q and k in (3, 8):
+            shapes.append((700, 3, "owned"))
+        for nc, ccol, kind in shapes:
+            d = mat(k + 1, nc, kind)
+            w = (nc + 63) // 64
+            d.update({"KPAR": k, "CCOL": ccol, "T_PRS": even(w + 1), "T_W0": 1 if kind == "view1" else 0, "T_WIN": 1 if kind == "view1" else 0})
+            tag = "k%d.%dx%d.c%d.%s" % (k, k + 1, nc, ccol, kind)
+            gs.append(Group(gid="K.mzd_make_table." + tag, props=list(props), harness="k_table.c", function="mzd_make_table", layer="K", defines=d,
+                            tus=["mzd", "mmc", "misc", "graycode", "brilliantrussian", "strassen", "mzp", "ple", "ple_russian", "triangular", "triangular_russian", "echelonform", "io", "djb", "debug_dump", "mp", "solve", "@libm"],
+                            assert_mode=True, unwind=(1 << k) + 3, bounded=True, bound_note="k=%d complete in patterns; row width %d columns, start column %d" % (k, nc, ccol), shape=tag,
+                            timeout=900, solver="--sat-solver cadical", cbmc_flags=["--arrays-uf-always"] if k >= 6 else []))
+    return gs
 
 
 def groups(tier, seed):
@@ -29,6 +50,7 @@ def groups(tier, seed):
         gs.append(Group(gid="C19.codelc.k%d" % k, props=P, harness="c19.c", function="m4ri_build_code", layer="P", defines={"H_CODELC": None, "K": k},
                         tus=["graycode"], enforce=["m4ri_build_code"], replace=["m4ri_gray_code"], loop_contracts=True, pre_unwindset={"m4ri_build_code.2": k + 1}, bounded=False, cbmc_flags=["--arrays-uf-always"],
                         bound_note="(loops 1 and 3 closed by loop invariants; outer loop of l<=16 iterations unwound completely)", timeout=900, shape="k=%d" % k, mem_gb=(40 if k >= 16 else 12), slots=(6 if k >= 15 else 1)))
+    gs += table_groups(tier)
     ks = range(1, 17) if tier == "thorough" else [1, 2, 3, 4, 5, 6, 7, 8, 9, 10, 11, 12]
     for k in ks:
         gs.append(Group(gid="C19.code.k%d" % k, props=P, harness="c19.c", function="m4ri_build_code", layer="P", defines={"H_CODE": None, "K": k},
